@@ -1,1 +1,34 @@
-fn main(){ for l in [74,80,81,101,107,108] { let v = serde_json::json!({"call_site": format!("src/fpgroups/invariants.rs:{}", l)}); println!("C14|abelian_invariants|isize-overflow-in-diagonalisation|{:016x}", vharness::monitor::digest_str(&v.to_string())); } }
+use rust_dsymbols::delaney3d::pseudo_toroidal_cover;
+use rust_dsymbols::derived::{build_set, build_sym_using_vs, canonical, minimal_image};
+use rust_dsymbols::dsets::DSet;
+use rust_dsymbols::dsyms::{DSym, PartialDSym};
+use rust_dsymbols::simplify::simplify;
+struct Lcg(u64);
+impl Lcg { fn next(&mut self) -> u64 { self.0 = self.0.wrapping_mul(6364136223846793005).wrapping_add(1442695040888963407); self.0 >> 33 } }
+fn renumber(ds: &PartialDSym, seed: u64) -> PartialDSym {
+    let n = ds.size();
+    let mut perm: Vec<usize> = (0..=n).collect();
+    let mut rng = Lcg(seed);
+    for i in (2..=n).rev() { let j = 1 + (rng.next() as usize) % i; perm.swap(i, j); }
+    let mut inv = vec![0; n + 1];
+    for d in 1..=n { inv[perm[d]] = d; }
+    let op = |i, d| ds.op(i, inv[d]).map(|e| perm[e]);
+    build_sym_using_vs(build_set(n, ds.dim(), op), |i, d| ds.v(i, i + 1, inv[d]))
+}
+fn key_of(ds: &PartialDSym) -> Option<String> { simplify(ds).map(|out| canonical(&minimal_image(&out)).to_string()) }
+fn main() {
+    let text = std::env::args().nth(1).unwrap_or("<383.1:4 3:2 4,3 4,1 2 3 4,2 4:4,6 2,4 6>".into());
+    let seed0: u64 = std::env::args().nth(2).and_then(|s| s.parse().ok()).unwrap_or(404003);
+    let nseeds: u64 = std::env::args().nth(3).and_then(|s| s.parse().ok()).unwrap_or(1);
+    let reps: usize = std::env::args().nth(4).and_then(|s| s.parse().ok()).unwrap_or(60);
+    let ds: PartialDSym = text.parse().unwrap();
+    let cov = pseudo_toroidal_cover(&ds).unwrap();
+    println!("cover size {}", cov.size());
+    for r in 0..3 { match rust_dsymbols::euclidicity::is_euclidean(&ds) { rust_dsymbols::euclidicity::Euclidean::Yes => println!("verdict {} yes", r), rust_dsymbols::euclidicity::Euclidean::No(s) => println!("verdict {} no {}", r, s), rust_dsymbols::euclidicity::Euclidean::Maybe(s, _) => println!("verdict {} maybe {}", r, s) } }
+    for seed in seed0..seed0 + nseeds {
+        let c = renumber(&cov, seed);
+        let mut hist = std::collections::BTreeMap::new();
+        for _ in 0..reps { *hist.entry(key_of(&c)).or_insert(0usize) += 1; }
+        if hist.len() > 1 || hist.keys().next().unwrap().is_none() || nseeds == 1 { println!("seed {} -> {:?}", seed, hist); }
+    }
+}
